@@ -176,9 +176,9 @@ def node_triples(t: 'val', variables: 'set', model: 'Model') -> 'list':
 
 
 @spec
-def entries_shape(entries: 'val') -> 'bool':
-    """a list of (triple, [markers]) pairs"""
-    return is_list(entries) and forall_idx(entries, lambda i, e: is_tuple(e) and len(e) == 2 and is_list(e[1]))
+def pair_with_list(e: 'val') -> 'bool':
+    """a (triple, [markers]) entry"""
+    return is_tuple(e) and len(e) == 2 and is_list(e[1])
 
 
 @contract('penman.layout:_interpret_node')
@@ -190,9 +190,10 @@ def _interpret_node(t: 'val', variables: 'set', model: 'Model') -> 'tuple':
     ensures(len(result) == 3 and result[0] == t[0], label='var')
     ensures(result[2] == read_node(t, variables, model), label='reading')
     ensures(result[1] == node_triples(t, variables, model), label='triples')
-    ensures(entries_shape(result[2]) and len(result[2]) >= 1, label='nonempty')
+    ensures(is_list(result[2]) and len(result[2]) >= 1 and pair_with_list(result[2][-1]), label='nonempty')
     invariant(0, lambda: epidata == read_edges(var, edges[:_i], variables, model))
     invariant(0, lambda: triples == edges_triples(var, edges[:_i], variables, model))
     invariant(0, lambda: has_concept == concept_written(edges[:_i]))
     invariant(0, lambda: var == t[0] and edges == t[1])
-    invariant(0, lambda: entries_shape(epidata))
+    invariant(0, lambda: len(epidata) == 0 or pair_with_list(epidata[-1]))
+    invariant(0, lambda: implies(has_concept, len(epidata) >= 1))
